@@ -14,7 +14,7 @@ from pyvc import sym
 from pyvc.sym import lift, SComplex
 from pyvc.interp import PyRaise
 from pyvc.oblig import obligation, verify, bounded, Goal, merge
-from .common import stable_rng, quick
+from .common import stable_rng, quick, Frame
 from .C08 import _cmat, _pmat, _install_models, _ceq
 
 LEVEL = "proof"
@@ -444,7 +444,10 @@ def ob_native():
         big = o.big_H
         cumr, cumt = np.hstack([0, np.cumsum(Nr)]), np.hstack([0, np.cumsum(list(Nt) + list(NtE))])
         Hb = [[big[cumr[k]:cumr[k + 1], cumt[j]:cumt[j + 1]] for j in range(K + len(NtE))] for k in range(K)]
+        fr = Frame(F=F, U=U, big_H=big)
         S = o.calc_SINR(F, U, pe) if ext else o.calc_SINR(F, U)
+        if fr.changed():
+            return {"calc_SINR frame": fr.changed()}
         for k in range(K):
             for l in range(Ns[k]):
                 want = _fp_sinr(Hb, F, U, k, l, nv, pe, extidx)
